@@ -11,11 +11,12 @@
   and the geometric invariant `NInv` (EG.Lemmas.ThickGeoRun) bounds all four errors by about `D`.
   Hence `2 D E = 2 d (E + S) + O(D)` on each side: a pixel of the `n`-th band of a side, at
   `|2 cross| <= 2 D n + D = 2 D N + 2 D E + D`, satisfies
-      |2 cross| - 2 d S  <=  2 D N + 2 d E + 2 D  =  (the side's share of the accumulator) + 2 D,
-  and the two shares differ by at most `2 (D - d)` (`disc_left` / `disc_right`: the numbers of
-  `Extra` parallels of the two sides differ by at most one, because both are `d^2 n / L2 + O(1)`).
+      |2 cross| - 2 d S  <=  2 D N + 2 d E + D - (+-err)  =  (the side's share of the accumulator) + D - (+-err),
+  and the two shares differ by `2 (D - d) z`, `z` = the difference of the numbers of `Extra` parallels
+  of the two sides: `|z| <= 1` because both numbers are `d^2 n / L2 + O(1)` (an exact identity, see
+  `disc_left` / `disc_right`), and `|z| = 1` forces the parallel error to the favourable end.
   With the accumulator `A <= 2 w L` at the moment the parallel is fetched:
-      2 (|2 cross| - 2 d S(side))  <=  A + 7 D - 3 d.
+      2 (|2 cross| - 2 d S(side))  <=  A + 5 D - d.
 -/
 import EG.Lemmas.ThickSkip
 import EG.Lemmas.ThickGeoBand
@@ -103,25 +104,6 @@ theorem new_cinv (l : Line) (t : Int) (it : ParallelsIterator)
   refine ⟨by rw [hl]; show 2 * (ctxOf l).d = _; ring, by rw [hle]; ring, by rw [hr]; show (0 : Int) = _; ring,
     by rw [hre]; ring, by rw [hacc]; ring, by omega⟩
 
-/-- The total numbers of `Extra` perpendicular steps the iterator skips on the left / right side
-from the state `it` to the end of the run (`fuel` bounds the number of `next` calls; `none` = bound
-exceeded). For the fresh iterator of a stroke these are the two counters of the harness port
-`joins_port::skipped_extras` (harness/src/m_thick.rs; the call of `next_parallel` inside
-`ParallelsIterator::new` starts from error 0 and never skips). -/
-def skipTotals : Nat → ParallelsIterator → Option (Nat × Nat)
-  | 0, _ => none
-  | f + 1, it =>
-    match it.next with
-    | none => none
-    | some (none, _) => some (0, 0)
-    | some (some _, it') =>
-      match skipTotals f it' with
-      | none => none
-      | some (a, b) =>
-        match it.nextSide with
-        | .left => some (a + skipsFuel loopFuel it .left, b)
-        | .right => some (a, b + skipsFuel loopFuel it .right)
-
 /-- The totals do not depend on the fuel. -/
 theorem skipTotals_unique : ∀ (f g : Nat) (it : ParallelsIterator) (r r' : Nat × Nat),
     skipTotals f it = some r → skipTotals g it = some r' → r = r'
@@ -155,59 +137,81 @@ theorem skipTotals_unique : ∀ (f g : Nat) (it : ParallelsIterator) (r r' : Nat
 
 /-! ### The arithmetic of the two sides -/
 
-/-- Left side: a pixel of band `n = N_L + E_L` (the parallel just yielded). -/
+/-- Left side: a pixel of band `n = N_L + E_L` (the parallel just yielded). With `z = E_R - E_L`
+(`= N_L - N_R`) the claim is `2 (D - d) z - 2 els <= 2 D`; the exact identity
+`2 L2 z = d (wr + wl) - D (ers - els) - 2 d^2` gives `z <= 1`, and `z = 1` forces `els >= D - 2 d`. -/
 theorem disc_left (D d NL EL SL NR ER SR wl els wr ers : Int) (hD : 0 < D) (hd0 : 0 ≤ d) (hdD : d ≤ D)
     (hwl : wl = 2 * d * (NL + 1) - 2 * D * (EL + SL)) (hels : els = 2 * d * (EL + SL) - 2 * D * EL)
     (hwr : wr = -(2 * d * NR) + 2 * D * (ER + SR)) (hers : ers = 2 * d * (ER + SR) - 2 * D * ER)
     (_b1 : -D < wl) (b2 : wl ≤ D + 2 * d) (b3 : -D ≤ els) (_b4 : els ≤ D) (_b5 : -D - 2 * d < wr)
-    (b6 : wr ≤ D) (_b7 : -D ≤ ers) (b8 : ers ≤ D) (hn : NL + EL = NR + ER) :
+    (b6 : wr ≤ D) (b7 : -D ≤ ers) (b8 : ers ≤ D) (hn : NL + EL = NR + ER) :
     4 * D * (NL + EL) + 2 * D - 4 * d * SL ≤
-      (D + d + 2 * D * (NL + NR) + 2 * d * (EL + ER)) + 5 * D - 3 * d := by
+      (D + d + 2 * D * (NL + NR) + 2 * d * (EL + ER)) + 3 * D - d := by
   have h4 : d * D ≤ D * D := Int.mul_le_mul_of_nonneg_right hdD (by omega)
   have h5 : 0 < D * D := Int.mul_pos hD hD
   have h6 : 0 ≤ d * d := Int.mul_nonneg hd0 hd0
+  have hid : 2 * (D * D + d * d) * (ER - EL) = d * (wr + wl) - D * (ers - els) - 2 * (d * d) := by
+    have : NL = NR + ER - EL := by omega
+    rw [hwl, hels, hwr, hers, this]; ring
+  have h1 : d * (wr + wl) ≤ d * (2 * D + 2 * d) := Int.mul_le_mul_of_nonneg_left (by omega) hd0
   have hz : ER - EL ≤ 1 := by
     by_contra hc
     have hz2 : 2 ≤ ER - EL := by omega
-    have hid : 2 * (D * D + d * d) * (ER - EL) = d * (wr + wl) - D * (ers - els) - 2 * (d * d) := by
-      have : NL = NR + ER - EL := by omega
-      rw [hwl, hels, hwr, hers, this]; ring
-    have h1 : d * (wr + wl) ≤ d * (2 * D + 2 * d) := Int.mul_le_mul_of_nonneg_left (by omega) hd0
     have h2 : D * (els - ers) ≤ D * (2 * D) := Int.mul_le_mul_of_nonneg_left (by omega) (by omega)
     have h3 : 2 * (D * D + d * d) * 2 ≤ 2 * (D * D + d * d) * (ER - EL) :=
       Int.mul_le_mul_of_nonneg_left hz2 (by omega)
     nlinarith
-  have h7 : (D - d) * (ER - EL) ≤ (D - d) * 1 := Int.mul_le_mul_of_nonneg_left hz (by omega)
   have h8 : 2 * els = 4 * d * EL + 4 * d * SL - 4 * D * EL := by rw [hels]; ring
   have h9 : NL - NR = ER - EL := by omega
-  nlinarith
+  -- the claim in terms of `z = ER - EL`: 2 (D - d) z - 2 els <= 2 D
+  suffices hf : 2 * ((D - d) * (ER - EL)) - 2 * els ≤ 2 * D by nlinarith
+  by_cases hz1 : ER - EL = 1
+  · -- z = 1: els >= D - 2 d
+    rw [hz1] at hid ⊢
+    have h2 : D * (-D) ≤ D * ers := Int.mul_le_mul_of_nonneg_left b7 (by omega)
+    have hDe : D * (D - 2 * d) ≤ D * els := by nlinarith
+    have := Int.le_of_mul_le_mul_left hDe hD
+    omega
+  · have hz0 : ER - EL ≤ 0 := by omega
+    have h7 : (D - d) * (ER - EL) ≤ (D - d) * 0 := Int.mul_le_mul_of_nonneg_left hz0 (by omega)
+    omega
 
-/-- Right side: a pixel of band `-(N_R + E_R - 1)` (the parallel just yielded). -/
+/-- Right side: a pixel of band `-(N_R + E_R - 1)` (the parallel just yielded). With
+`z = E_R - E_L` the claim is `-2 (D - d) z - 2 ers <= 2 D`; `2 L2 z = d (wr + wl) - D (ers - els)`
+gives `z >= -1`, and `z = -1` forces `ers >= D - 2 d`. -/
 theorem disc_right (D d NL EL SL NR ER SR wl els wr ers : Int) (hD : 0 < D) (hd0 : 0 ≤ d) (hdD : d ≤ D)
     (hwl : wl = 2 * d * (NL + 1) - 2 * D * (EL + SL)) (hels : els = 2 * d * (EL + SL) - 2 * D * EL)
     (hwr : wr = -(2 * d * NR) + 2 * D * (ER + SR)) (hers : ers = 2 * d * (ER + SR) - 2 * D * ER)
-    (b1 : -D < wl) (_b2 : wl ≤ D + 2 * d) (_b3 : -D ≤ els) (b4 : els ≤ D) (b5 : -D - 2 * d < wr)
+    (b1 : -D < wl) (_b2 : wl ≤ D + 2 * d) (b3 : -D ≤ els) (b4 : els ≤ D) (b5 : -D - 2 * d < wr)
     (_b6 : wr ≤ D) (b7 : -D ≤ ers) (_b8 : ers ≤ D) (hn : NL + EL + 1 = NR + ER) :
     4 * D * (NR + ER - 1) + 2 * D - 4 * d * SR ≤
-      (D + d + 2 * D * (NL + NR) + 2 * d * (EL + ER)) + 5 * D - 3 * d := by
+      (D + d + 2 * D * (NL + NR) + 2 * d * (EL + ER)) + D - d := by
   have h4 : d * D ≤ D * D := Int.mul_le_mul_of_nonneg_right hdD (by omega)
   have h5 : 0 < D * D := Int.mul_pos hD hD
   have h6 : 0 ≤ d * d := Int.mul_nonneg hd0 hd0
+  have hid : 2 * (D * D + d * d) * (ER - EL) = d * (wr + wl) - D * (ers - els) := by
+    have : NR = NL + EL + 1 - ER := by omega
+    rw [hwl, hels, hwr, hers, this]; ring
+  have h1 : d * (-(2 * D) - 2 * d) ≤ d * (wr + wl) := Int.mul_le_mul_of_nonneg_left (by omega) hd0
   have hz : -1 ≤ ER - EL := by
     by_contra hc
     have hz2 : ER - EL ≤ -2 := by omega
-    have hid : 2 * (D * D + d * d) * (ER - EL) = d * (wr + wl) - D * (ers - els) := by
-      have : NR = NL + EL + 1 - ER := by omega
-      rw [hwl, hels, hwr, hers, this]; ring
-    have h1 : d * (-(2 * D) - 2 * d) ≤ d * (wr + wl) := Int.mul_le_mul_of_nonneg_left (by omega) hd0
     have h2 : D * (ers - els) ≥ D * (-(2 * D)) := Int.mul_le_mul_of_nonneg_left (by omega) (by omega)
     have h3 : 2 * (D * D + d * d) * (ER - EL) ≤ 2 * (D * D + d * d) * (-2) :=
       Int.mul_le_mul_of_nonneg_left hz2 (by omega)
     nlinarith
-  have h7 : (D - d) * (-1) ≤ (D - d) * (ER - EL) := Int.mul_le_mul_of_nonneg_left hz (by omega)
   have h8 : 2 * ers = 4 * d * ER + 4 * d * SR - 4 * D * ER := by rw [hers]; ring
   have h9 : NR - NL = 1 - (ER - EL) := by omega
-  nlinarith
+  suffices hf : -(2 * ((D - d) * (ER - EL))) - 2 * ers ≤ 2 * D by nlinarith
+  by_cases hz1 : ER - EL = -1
+  · rw [hz1] at hid ⊢
+    have h2 : D * (-D) ≤ D * els := Int.mul_le_mul_of_nonneg_left b3 (by omega)
+    have hDe : D * (D - 2 * d) ≤ D * ers := by nlinarith
+    have := Int.le_of_mul_le_mul_left hDe hD
+    omega
+  · have hz0 : 0 ≤ ER - EL := by omega
+    have h7 : (D - d) * 0 ≤ (D - d) * (ER - EL) := Int.mul_le_mul_of_nonneg_left hz0 (by omega)
+    omega
 
 theorem sgL_cases (fl : Bool) : sgL fl = 1 ∨ sgL fl = -1 := by cases fl <;> simp [sgL]
 theorem sgR_cases (fl : Bool) : sgR fl = 1 ∨ sgR fl = -1 := by cases fl <;> simp [sgR]
@@ -243,8 +247,8 @@ theorem run_discount (c : StrokeCtx) (hv : c.Valid) (fl : Bool) (hfr : c.FrameOK
     CInv c it NL EL SL NR ER SR → NL + EL = iL → NR + ER = jR → it.thicknessThreshold = T →
     ∃ (f a b : Nat), skipTotals f it = some (a, b) ∧
       ∀ x ∈ xs, ∃ (n A : Int), ParOK c s (c.ph c.M' * n) x.2.1 x.2.2 ∧ 0 ≤ A ∧ A * A ≤ T ∧
-        (0 < n → 2 * (2 * c.D * n + c.D - 2 * c.d * (SL + a)) ≤ A + 7 * c.D - 3 * c.d) ∧
-        (n ≤ 0 → 2 * (2 * c.D * (-n) + c.D - 2 * c.d * (SR + b)) ≤ A + 7 * c.D - 3 * c.d) := by
+        (0 < n → 2 * (2 * c.D * n + c.D - 2 * c.d * (SL + a)) ≤ A + 5 * c.D - c.d) ∧
+        (n ≤ 0 → 2 * (2 * c.D * (-n) + c.D - 2 * c.d * (SR + b)) ≤ A + 5 * c.D - c.d) := by
   have hD := hv.hD
   have hd0 := hv.hd0
   have hdD := hv.hdD
@@ -362,7 +366,7 @@ theorem run_discount (c : StrokeCtx) (hv : c.Valid) (fl : Bool) (hfr : c.FrameOK
 `(a, b)` the total numbers of skipped `Extra` steps on the left / right side, every pixel `q` lies
 in a band `n` (`X - tau n` in `(-D, D]`, `X = ph q - ph start = -+ 2 cross`), and there is an
 accumulator value `A >= 0`, `A^2 <= (2 w)^2 L2`, with
-`2 (2 D |n| + D - 2 d (a resp. b)) <= A + 7 D - 3 d` (`a` for the left bands `n > 0`). -/
+`2 (2 D |n| + D - 2 d (a resp. b)) <= A + 5 D - d` (`a` for the left bands `n > 0`). -/
 theorem thickPoints_discount (l : Line) (w : Nat) (hw2 : w ≤ 2147483647) (ps : List Pt)
     (hps : thickPoints l w = some ps) :
     ∃ (it0 : ParallelsIterator) (f a b : Nat),
@@ -373,9 +377,9 @@ theorem thickPoints_discount (l : Line) (w : Nat) (hw2 : w ≤ 2147483647) (ps :
         -(ctxOf l).D < (ctxOf l).ph q - (ctxOf l).ph l.start - (ctxOf l).ph (ctxOf l).M' * n ∧
         (ctxOf l).ph q - (ctxOf l).ph l.start - (ctxOf l).ph (ctxOf l).M' * n ≤ (ctxOf l).D ∧
         (0 < n → 2 * (2 * (ctxOf l).D * n + (ctxOf l).D - 2 * (ctxOf l).d * (a : Int)) ≤
-          A + 7 * (ctxOf l).D - 3 * (ctxOf l).d) ∧
+          A + 5 * (ctxOf l).D - (ctxOf l).d) ∧
         (n ≤ 0 → 2 * (2 * (ctxOf l).D * (-n) + (ctxOf l).D - 2 * (ctxOf l).d * (b : Int)) ≤
-          A + 7 * (ctxOf l).D - 3 * (ctxOf l).d) := by
+          A + 5 * (ctxOf l).D - (ctxOf l).d) := by
   have hv := ctxOf_valid l
   have hfr := frameOK_ctxOf l
   have hsat : satAsI32 w = (w : Int) := by unfold satAsI32; simp only [hw2, ↓reduceIte]
